@@ -230,6 +230,8 @@ func (c *diskClient) Close(context.Context) error {
 }
 
 // simHost exposes extensions to the component under test.
-type simHost struct{ ext map[component.ID]component.Component }
+type simHost struct {
+	ext map[component.ID]component.Component
+}
 
 func (h *simHost) GetExtensions() map[component.ID]component.Component { return h.ext }
